@@ -8,8 +8,11 @@ mod spaces;
 
 mod c01;
 mod c03;
+mod c04;
+mod c07;
 mod c18;
 mod c11;
+mod c12;
 mod c15;
 mod c19;
 mod c20;
@@ -24,8 +27,11 @@ fn table() -> Vec<(&'static str, RunFn, RecheckFn)> {
     vec![
         ("C01", c01::run as RunFn, c01::recheck as RecheckFn),
         ("C03", c03::run, c03::recheck),
+        ("C04", c04::run, c04::recheck),
+        ("C07", c07::run, c07::recheck),
         ("C11", c11::run, c11::recheck),
         ("C18", c18::run, c18::recheck),
+        ("C12", c12::run, c12::recheck),
         ("C15", c15::run, c15::recheck),
         ("C19", c19::run, c19::recheck),
         ("C20", c20::run, c20::recheck),
